@@ -896,11 +896,13 @@ theorem pass_self {E : Env τ ω} {s s1 : St τ ω} {m : Bool}
 def Status.live (st : Status) : Bool := st == .running || st == .started
 
 /-- the status attribute read by the scheduler is what the tasker last yielded, and only a
-tasker's own run changes it -/
-structure StatusFaithful (E : Env τ ω) : Prop where
-  other : ∀ ph i c st w k, k ≠ i → E.status (E.send ph i c st w).2 k = E.status w k
-  own : ∀ ph i c st w x, (E.send ph i c st w).1 = .yielded x → E.status (E.send ph i c st w).2 i = x
-  stop : ∀ ph i c st w, (E.send ph i c st w).1 = .stopIteration → E.status (E.send ph i c st w).2 i = .aborted
+tasker's own run changes it — on the worlds `W` that the environment can be in (`W` is closed
+under sends) -/
+structure StatusFaithful (E : Env τ ω) (W : ω → Prop) : Prop where
+  closed : ∀ ph i c st w, W w → W (E.send ph i c st w).2
+  other : ∀ ph i c st w k, W w → k ≠ i → E.status (E.send ph i c st w).2 k = E.status w k
+  own : ∀ ph i c st w x, W w → (E.send ph i c st w).1 = .yielded x → E.status (E.send ph i c st w).2 i = x
+  stop : ∀ ph i c st w, W w → (E.send ph i c st w).1 = .stopIteration → E.status (E.send ph i c st w).2 i = .aborted
 
 theorem checkMore_ok {s s1 : St τ ω} {more m1 : Bool} (h : checkMore s more = .ok s1 m1) :
     s1 = s ∧ ∃ st, s.status = some st ∧ m1 = (more || st.live) := by
@@ -914,9 +916,11 @@ theorem checkMore_ok {s s1 : St τ ω} {more m1 : Bool} (h : checkMore s more = 
 
 /-- one completed step of the pass: `more` gains exactly "this tasker is started or running now";
 nobody else's status moved -/
-theorem body_ok_live {E : Env τ ω} (hf : StatusFaithful E) {s s1 : St τ ω} {more m1 : Bool} {e : Entry τ}
-    {rest : List (Entry τ)} (hr : s.ready = e :: rest) (hb : body E s more = .ok s1 m1) :
-    m1 = (more || (E.status s1.world e.id).live) ∧ ∀ k, k ≠ e.id → E.status s1.world k = E.status s.world k := by
+theorem body_ok_live {E : Env τ ω} {W : ω → Prop} (hf : StatusFaithful E W) {s s1 : St τ ω} {more m1 : Bool}
+    {e : Entry τ} {rest : List (Entry τ)} (hW : W s.world) (hr : s.ready = e :: rest)
+    (hb : body E s more = .ok s1 m1) :
+    W s1.world ∧ m1 = (more || (E.status s1.world e.id).live) ∧
+    ∀ k, k ≠ e.id → E.status s1.world k = E.status s.world k := by
   unfold body at hb
   rw [hr] at hb
   simp only [] at hb
@@ -925,7 +929,7 @@ theorem body_ok_live {E : Env τ ω} (hf : StatusFaithful E) {s s1 : St τ ω} {
     subst h1
     simp only [Option.some.injEq] at hst
     subst hst
-    exact ⟨hm, fun _ _ => rfl⟩
+    exact ⟨hW, hm, fun _ _ => rfl⟩
   · split at hb
     · rename_i st hres
       split at hb
@@ -933,40 +937,41 @@ theorem body_ok_live {E : Env τ ω} (hf : StatusFaithful E) {s s1 : St τ ω} {
         subst h1
         simp only [Option.some.injEq] at hst
         subst hst
-        refine ⟨?_, fun k hk => hf.other _ _ _ _ _ k hk⟩
-        rw [hm]; simp only []; rw [hf.own _ _ _ _ _ _ hres]
+        refine ⟨hf.closed _ _ _ _ _ hW, ?_, fun k hk => hf.other _ _ _ _ _ k hW hk⟩
+        rw [hm]; simp only []; rw [hf.own _ _ _ _ _ _ hW hres]
       · obtain ⟨h1, st', hst, hm⟩ := checkMore_ok hb
         subst h1
         simp only [Option.some.injEq] at hst
         subst hst
-        refine ⟨?_, fun k hk => hf.other _ _ _ _ _ k hk⟩
-        rw [hm]; simp only []; rw [hf.own _ _ _ _ _ _ hres]
+        refine ⟨hf.closed _ _ _ _ _ hW, ?_, fun k hk => hf.other _ _ _ _ _ k hW hk⟩
+        rw [hm]; simp only []; rw [hf.own _ _ _ _ _ _ hW hres]
     · rename_i hres
       obtain ⟨h1, st', hst, hm⟩ := checkMore_ok hb
       subst h1
       simp only [Option.some.injEq] at hst
       subst hst
-      refine ⟨?_, fun k hk => hf.other _ _ _ _ _ k hk⟩
-      rw [hm]; simp only []; rw [hf.stop _ _ _ _ _ hres]
+      refine ⟨hf.closed _ _ _ _ _ hW, ?_, fun k hk => hf.other _ _ _ _ _ k hW hk⟩
+      rw [hm]; simp only []; rw [hf.stop _ _ _ _ _ hW hres]
     · simp at hb
 
 /-- **`more` after a completed pass** = some tasker that was in the deque when the pass began is
 started or running at the end of the pass. -/
-theorem forLoop_more {E : Env τ ω} (hf : StatusFaithful E) : ∀ (front back : List (Entry τ)) (s s' : St τ ω)
-    (more more' : Bool), s.ready = front ++ back → (ids s.ready).Nodup →
+theorem forLoop_more {E : Env τ ω} {W : ω → Prop} (hf : StatusFaithful E W) :
+    ∀ (front back : List (Entry τ)) (s s' : St τ ω)
+    (more more' : Bool), W s.world → s.ready = front ++ back → (ids s.ready).Nodup →
     forLoop E front.length s more = .ok s' more' →
-    more' = (more || front.any (fun e => (E.status s'.world e.id).live)) ∧
+    W s'.world ∧ more' = (more || front.any (fun e => (E.status s'.world e.id).live)) ∧
     ∀ k, k ∉ ids front → E.status s'.world k = E.status s.world k := by
   intro front
   induction front with
   | nil =>
-    intro back s s' more more' _ _ h
+    intro back s s' more more' hW _ _ h
     simp only [List.length_nil, forLoop, BodyOut.ok.injEq] at h
     obtain ⟨h1, h2⟩ := h
     subst h1; subst h2
-    simp
+    simp [hW]
   | cons e es ih =>
-    intro back s s' more more' hr hnd h
+    intro back s s' more more' hW hr hnd h
     have hr' : s.ready = e :: (es ++ back) := by simpa using hr
     simp only [List.length_cons, forLoop] at h
     cases hb : body E s more with
@@ -975,21 +980,35 @@ theorem forLoop_more {E : Env τ ω} (hf : StatusFaithful E) : ∀ (front back :
       rw [hb] at h
       simp only [] at h
       have hs1 := body_ok_state hr' hb
-      obtain ⟨hm1, hoth⟩ := body_ok_live hf hr' hb
+      obtain ⟨hW1, hm1, hoth⟩ := body_ok_live hf hW hr' hb
       have hrd : s1.ready = es ++ (back ++ kept E s e) := by rw [hs1, after_ready]; simp
       have hnd1 : (ids s1.ready).Nodup := by
         rw [hs1, after_ready]; rw [hr'] at hnd; exact nodup_rotate hnd (kept_sublist E s e)
-      obtain ⟨hm', hoth'⟩ := ih (back ++ kept E s e) s1 s' m1 more' hrd hnd1 h
+      obtain ⟨hW', hm', hoth'⟩ := ih (back ++ kept E s e) s1 s' m1 more' hW1 hrd hnd1 h
       have hnot : e.id ∉ ids es := by
         rw [hr'] at hnd
         simp only [ids_cons, ids_append, List.nodup_cons, List.mem_append, not_or] at hnd
         exact hnd.1.1
-      refine ⟨?_, ?_⟩
+      refine ⟨hW', ?_, ?_⟩
       · rw [hm', hm1, ← hoth' e.id hnot]
         simp [Bool.or_assoc]
       · intro k hk
         simp only [ids_cons, List.mem_cons, not_or] at hk
         rw [hoth' k hk.2, hoth k hk.1]
+
+/-- the world invariant of a faithful environment holds in every state of a run -/
+theorem worldInv_step {E : Env τ ω} {W : ω → Prop} (hf : StatusFaithful E W) :
+    StepInv E (fun s => W s.world) where
+  after := by
+    intro s e rest hi _
+    show W (after E s e rest).world
+    rw [after_world]
+    split
+    · exact hf.closed _ _ _ _ _ hi
+    · exact hi
+  afterFinal := fun s e rest hi _ => hf.closed _ _ _ _ _ hi
+  advance := fun s hi => hi
+  halfAdvance := fun s hi => hi
 
 /-! ### the abort sweep -/
 
